@@ -32,7 +32,8 @@ def base_config(rng, cls=None, frag=None):
     return {"transport": rng.choice(["tcp", "unix"]), "cls": cls or rng.choice(["T", "T", "S"]),
             "size": rng.choice([None, None, 1, 2, 3]), "hmask": rng.choice([0, 3, 5]),
             "net_seed": rng.randrange(1 << 30), "net": net_cfg(rng, frag), "name": "p",
-            "host": rng.choice(["127.0.0.1", "127.0.0.1", "::1", "localhost", "fe80::1%eth0"])}
+            "host": rng.choice(["127.0.0.1", "127.0.0.1", "::1", "localhost", "fe80::1%eth0"]),
+            "loglevel": rng.choice([None, None, None, None, "DEBUG", "INFO"]), "wfilter": rng.choice([None, None, None, "error"])}
 
 
 # ----------------------------------------------------------------------------- members of a class
@@ -273,8 +274,8 @@ def gen_command(rng, cls, short=False):
         direct_pos.extend([e, c])
 
     if k == "apply":
-        fn = rng.choice(["work", "job", "mutator", "alias", "alias"])
-        text = ["apply", W + fn]
+        fn = rng.choice(["work", "job", "mutator", "alias", "alias", "nightly"])
+        text = ["apply", ("tpsim.ctlpkg." if fn == "nightly" else W) + fn]
         args, kwargs, num, gname = (), None, 1, None
         if rng.random() < 0.5:
             args = rng.choice([(), (1,), (1, 2), ("x",), (1, "y", 3.5), ([1, 2],), ([1, 2], {"a": [3]})])
@@ -539,6 +540,11 @@ def invalid_line(rng, cls, token):
                 ids.append(str(len(ids)))
             return f"cancel {bad} " + " ".join(ids)
         return f"no-such-{token}-" + "y" * n
+    if rng.random() < 0.08 and cls != "S":
+        # "entry point" notation instead of a dotted path: a long run of identifier characters and dots, then one ':'
+        return rng.choice(["apply mycompany_dataplatform.ingestion_workers.download_tasks:fetch_all",
+                           "map tpsim.ctlworkers.work_with_a_rather_long_name_for_a_function:run [1,2]",
+                           f"apply {W}work -e some_package.callbacks.notification_handlers.on_task_finished:handler"])
     if cls == "S":
         return rng.choice([f"start {bad}", f"stop {bad}", f"pool-size {bad}", f"cancel {bad}", f"cancel 0 {bad}"])
     return rng.choice([f"apply {W}work -n {bad} -g grp{token}", f"map {W}work [1,2] -n {bad} -g grp{token}",
@@ -668,6 +674,15 @@ def c18_run(rng):
             steps.append({"op": "run", "n": rng.choice([1, 3, 10, 40])})
         if rng.random() < 0.15:
             steps.append({"op": "gate", "k": rng.randrange(6)})
+    if rng.random() < 0.3:
+        # a scripted client: a few more lines in one go, then it closes its sending side and only reads from then on
+        c = rng.randrange(nsess) + 1
+        if c not in parked:
+            for text in rng.sample(["num-running", "is-locked", "pool-size", "-h", "no-such-thing", "is-full"], rng.choice([1, 2, 4])):
+                tokens[f"{c}:{counts[c]}"] = f"tok{c}x{counts[c]}q"
+                counts[c] += 1
+                steps.append({"op": "line", "c": c, "text": text})
+            steps.append({"op": "close", "c": c, "how": "eof"})
     steps.append({"op": "idle"})
     for k in range(12):
         steps.append({"op": "gate", "k": k})
